@@ -286,3 +286,26 @@ PROPS["C37"] = {
     "not_covered": ["ForwardingMetadata::{calculate_offset_vector, forward, scan_marked_objects, mark_last_word_of_object} closure glue",
                     "CompressorSpace's use of the forwarding addresses (whole-space)"],
 }
+
+PROPS["C21"] = {
+    "level": "proof",
+    "anchors": [("break_bit_range", "src/util/metadata/side_metadata/ranges.rs"), ("zero_meta_bits", "src/util/metadata/side_metadata/global.rs"),
+                ("set_meta_bits", "src/util/metadata/side_metadata/global.rs"), ("bulk_update_metadata", "src/util/metadata/side_metadata/global.rs"),
+                ("bcopy_metadata_contiguous", "src/util/metadata/side_metadata/global.rs")],
+    "kani": {"prefix": "c21_", "files": ["c21_bulk.rs", "side.rs"], "timeout_quick": 1200, "timeout_thorough": 3000},
+    "functions": ["ranges::break_bit_range", "SideMetadataSpec::{zero_meta_bits, set_meta_bits, bulk_update_metadata, bzero_metadata, "
+                  "bset_metadata, bcopy_metadata_contiguous}", "util::memory::{zero, set}"],
+    "explanation": "(a) break_bit_range for all (start byte, start bit, end byte, end bit, direction) and any early-stop answer of the visitor: "
+                   "<= 3 non-empty pieces, chained in order, union exactly the bit interval, sub-byte pieces inside one byte, early stop honoured "
+                   "(loop-free, complete). (b) zero/set_meta_bits on every bit range of a 32-byte symbolic window: exactly the bits of the range "
+                   "are written. (d) the real bzero/bset/bcopy on a symbolic spec (all widths, region sizes) and window position: fields k1..k2 "
+                   "become 0 / all-ones / the source field, every other field of the window (symbolic index) unchanged, source unchanged. "
+                   "The tiling proof (a) is unbounded in the range length; the memory effect is checked on ranges up to the 32-byte window.",
+    "bounds": ["memory effect checked on ranges inside a 32-byte metadata window (memset/copy loops unwound to 34 >= 32+1, unwinding assertions on); "
+               "break_bit_range's tiling is proved for all lengths, and for longer ranges only the middle piece's memset/memmove grows"],
+    "assumptions": ["byte addresses < 2^60 (bit index 8*addr does not overflow)",
+                    "unaligned start/size: the region containing `start` is included and the one containing `start+size` is not (as the code documents)",
+                    "window placement assumptions of C20"],
+    "trusted_base": ["kani::stub of global_side_metadata_base_address", "std::ptr::write_bytes / ptr::copy as modelled by CBMC"],
+    "not_covered": ["32-bit chunked (discontiguous) update path", "extreme_assertions sanity mirror"],
+}
